@@ -161,6 +161,7 @@ class Harness(object):
             return app
         app = Application([], slash_mode=mode)
         inserted = []
+        self.interim = []
         for k, pos in enumerate(order):
             idx = sum(1 for q in inserted if q < pos)
             inserted.append(pos)
@@ -169,6 +170,13 @@ class Harness(object):
                 app.add(e)            # index=None appends
             else:
                 app.add(e, idx)
+            if k < len(order) - 1:
+                # the application is live while it grows: requests between the add() calls are answered from the
+                # table as it is then (recorded here, judged by check_table)
+                for path in REQ_PATHS:
+                    del self.log[:]
+                    res = wsgi.call(app, path, 'GET')
+                    self.interim.append((sorted(inserted), path, res, list(self.log)))
         return app
 
 
@@ -217,6 +225,21 @@ def check_table(acc, h, table, mode, order, layer):
         acc.violation('C06:construct:%s' % type(e).__name__, 'table %r (%s) failed to construct: %r' % (desc, mode, e),
                       {'table': desc, 'mode': mode, 'order': order})
         return
+    if order is not None:
+        for present, path, res, log in h.interim:
+            sub = [desc[i] for i in present]
+            exp = D.dispatch(sub, mode, path, 'GET')
+            if 'index' in exp:
+                exp = dict(exp, index=present[exp['index']])
+            exp = dict(exp, executed=[present[i] for i in exp.get('executed', [])])
+            acc.transitions += 1
+            acc.validated += 1
+            bad = compare(exp, res, log)
+            if bad:
+                acc.violation('C06:%s:%s:while-growing' % (exp['kind'], bad[0]),
+                              '%s; partial table %r of %r mode=%s order=%r request=GET %s' % (bad[1], present, desc, mode, order, path),
+                              {'table': desc, 'mode': mode, 'order': order, 'path': path, 'method': 'GET',
+                               'raw': [list(t) for t in table], 'interim': present})
     for path in REQ_PATHS:
         for method in REQ_METHODS:
             exp = D.dispatch(desc, mode, path, method)
@@ -240,8 +263,12 @@ def check_table(acc, h, table, mode, order, layer):
 # ---- extra layer: typed binding with an over-long numeral, and a request class that reports the raw method ----
 X_ROUTES = [('/<n:int>', None, 'answer'), ('/<n:int>', ['GET'], 'answer'), ('/<n:int>', ['post'], 'nb404r'),
             ('/<x>', None, 'answer'), ('/<x>', ['POST'], 'answer'), ('/<x>', ['get', 'Post'], 'nb403t'),
-            ('/t/<name>/', None, 'answer')]
-X_PATHS = ['/5', '/' + '9' * 5000, '/abc', '/0', '/t/two words/', u'/t/caf\xe9/', '/t/me@example.org']
+            ('/t/<name>/', None, 'answer'),
+            # bindings named like the options of clastic's HTTP error constructors, on endpoints that fail
+            ('/st/<code:int>', None, 'boom'), ('/ib/<is_breaking:int>', None, 'boom'), ('/dt/<detail>', None, 'boom'),
+            ('/ib/<is_breaking?int>/x', None, 'nb404r')]
+X_PATHS = ['/5', '/' + '9' * 5000, '/abc', '/0', '/t/two words/', u'/t/caf\xe9/', '/t/me@example.org',
+           '/st/200', '/ib/0', '/dt/text', '/ib/x', '/ib/1/x']
 X_METHODS = ['GET', 'get', 'Post', 'POST', 'HEAD', 'head', 'PUT']
 
 
